@@ -3,7 +3,7 @@ from __future__ import annotations
 
 import importlib
 
-MODULES = ["repartition", "partitions", "layers", "decisions", "divisions", "parquet_stats"]
+MODULES = ["repartition", "partitions", "layers", "decisions", "divisions", "parquet_stats", "drivers"]
 
 
 def all_specs():
